@@ -69,37 +69,60 @@ func c09Spec() world.Spec {
 	return s
 }
 
-// c09Do runs one request and reports a panic as a violation.
+// c09Do runs one request and reports a panic or a request that never ends as a violation.
 func c09Do(w *world.World, r obs.HTTPReq) *ev.Violation {
+	rep, hang := doTerminating(w, r)
+	if hang != "" {
+		key, what, _ := strings.Cut(hang, "\x00")
+		return ev.V("C09/"+key, "%s", what)
+	}
+	if rep.Panic != "" {
+		v := ev.V("C09/panic:"+rep.PanicSite(), "handler panicked: %s", short(rep.Panic, 160))
+		v.Detail = map[string]any{"stack": short(rep.Stack, 3000)}
+		return v
+	}
+	return nil
+}
+
+// doTerminating serves one request and watches that it ends ("processing terminates"): the input is a few kilobytes and a
+// request takes about a millisecond. If the handler has not returned after 30 s, its goroutine is looked up in two stack
+// dumps 10 s apart. Still on the CPU inside zitadel/saml in the same function: it is not waiting for anything and will not
+// finish ("does-not-terminate:<function>"). Every goroutine inside zitadel/saml parked on a channel or lock, the same ones
+// both times: nothing in the process can release them ("blocked-forever"). Anything else that is slow is inconclusive
+// (reported as a harness failure line, not as a violation). hang is "" or key NUL description.
+func doTerminating(w *world.World, r obs.HTTPReq) (rep obs.Reply, hang string) {
 	done := make(chan obs.Reply, 1)
 	go func() { done <- obs.Do(w.Handler, r) }()
 	select {
-	case rep := <-done:
-		if rep.Panic != "" {
-			v := ev.V("C09/panic:"+rep.PanicSite(), "handler panicked: %s", short(rep.Panic, 160))
-			v.Detail = map[string]any{"stack": short(rep.Stack, 3000)}
-			return v
-		}
-		return nil
+	case rep = <-done:
+		return rep, ""
 	case <-time.After(30 * time.Second):
-		// "processing terminates": the input is a few kilobytes and a request takes about a millisecond. If the handler is still
-		// on the CPU inside zitadel/saml, in the same function, in two stack dumps 10 s apart (so 40 s in all), it is not
-		// waiting for anything and will not finish; anything else (blocked, moved on) is inconclusive.
-		f1, running1 := c09Spinning()
-		time.Sleep(10 * time.Second)
-		f2, running2 := c09Spinning()
-		select {
-		case <-done:
-			fmt.Println("HARNESS-FAILURE property=C09 request needed more than 30s (inconclusive)")
-			return nil
-		default:
-		}
-		if running1 && running2 && f1 != "" && f1 == f2 {
-			return ev.V("C09/does-not-terminate:"+f1, "the handler has been running for 40 s on a request of %d bytes and is still executing %s (on the CPU, not waiting)", len(r.RawQuery)+len(r.Body), f1)
-		}
-		fmt.Println("HARNESS-FAILURE property=C09 request did not return within 40s (inconclusive)")
-		return nil
 	}
+	f1, running1 := c09Spinning()
+	g1, parked1, sample := c15Blocked()
+	time.Sleep(10 * time.Second)
+	f2, running2 := c09Spinning()
+	g2, parked2, _ := c15Blocked()
+	select {
+	case rep = <-done:
+		fmt.Println("HARNESS-FAILURE request needed more than 30s (inconclusive)")
+		return rep, ""
+	default:
+	}
+	if running1 && running2 && f1 != "" && f1 == f2 {
+		return rep, "does-not-terminate:" + f1 + "\x00" + fmt.Sprintf("the handler has been running for 40 s on a request of %d bytes and is still executing %s (on the CPU, not waiting)", len(r.RawQuery)+len(r.Body), f1)
+	}
+	same := len(g1) == len(g2) && len(g1) > 0
+	for id, st := range g1 {
+		if g2[id] != st {
+			same = false
+		}
+	}
+	if parked1 && parked2 && same {
+		return rep, "blocked-forever\x00" + fmt.Sprintf("%s %s has not been answered for 40 s: every goroutine inside the provider is parked (%s) and nothing is running that could release them", r.Method, r.Path, sample)
+	}
+	fmt.Println("HARNESS-FAILURE request did not return within 40s (inconclusive)")
+	return rep, ""
 }
 
 var reGoState = regexp.MustCompile(`(?m)^goroutine \d+ \[([^\],]+)`)
@@ -953,5 +976,46 @@ func TestC09(t *testing.T) {
 			return map[string]any{"note": c.Note, "method": c.Req.Method, "path": c.Req.Path, "query": short(c.Req.RawQuery, 200), "body": short(c.Req.Body, 200)}
 		})
 		return c09Run(c)
+	})
+}
+
+// TestC09Endpoints: every routed endpoint x method, with the backing store up and with every storage operation failing: each
+// request ends (no panic, no request that never returns).
+func TestC09Endpoints(t *testing.T) {
+	col := ev.For("C09", "exploration", c09Rule)
+	spec := c09Spec()
+	runPlain(t, col, "TestC09", func(fail func(*ev.Violation, any)) {
+		n := 0
+		valid := c09ValidMessages(spec.IdP)
+		for _, down := range []bool{false, true} {
+			w := mustBuild(spec)
+			if down {
+				var faults []world.Fault
+				for _, op := range []string{"Health", "GetCA", "GetMetadataSigningKey", "GetResponseSigningKey", "GetEntityByID", "GetEntityIDByAppID", "CreateAuthRequest", "AuthRequestByID", "SetUserinfoWithUserID", "SetUserinfoWithLoginName"} {
+					faults = append(faults, world.Fault{Op: op, Occurrence: 0, Kind: "error"})
+				}
+				w.Store.SetFaults(faults)
+			}
+			var reqs []obs.HTTPReq
+			for _, p := range []string{"/ready", "/healthz", route(spec.IdP, "metadata"), route(spec.IdP, "certificate"), route(spec.IdP, "callback"), route(spec.IdP, "sso"), route(spec.IdP, "slo"), route(spec.IdP, "attribute"), "/"} {
+				for _, m := range []string{"GET", "POST", "HEAD", "PUT", "OPTIONS"} {
+					reqs = append(reqs, obs.HTTPReq{Method: m, Path: p}, obs.HTTPReq{Method: m, Path: p, RawQuery: "id=req-done-post"})
+				}
+			}
+			for _, v := range valid {
+				reqs = append(reqs, v.req)
+			}
+			for _, r := range reqs {
+				n++
+				if v := c09Do(w, r); v != nil {
+					fail(v, C09Case{Kind: "http", Spec: spec, Req: r, Note: fmt.Sprintf("endpoint sweep, storage down=%v", down)})
+					if strings.Contains(v.Key, "blocked-forever") || strings.Contains(v.Key, "does-not-terminate") {
+						return
+					}
+				}
+			}
+		}
+		col.Count("endpoint-sweep", n)
+		col.AddDistinct(n, n)
 	})
 }
